@@ -53,6 +53,11 @@ decided, see C05 "not decided"); attribute look-ups are repeatable;
 interpreter cannot bound is reported as a violation that quotes it (never a
 silent pass); a statement kind it does not model, a second consumer of
 `_check_dz`, a vanished anchor are analysis errors.
+
+The same interpreter, run with `World.strict`, decides C05.R2 (= C03.R7) on
+values: see `step_clause` at the end of this module (strictness of the
+comparisons, the *first* crossed boundary, the full step only when nothing
+is crossed).  Without that flag nothing of it changes C04.R9 / C05.R7.
 """
 import ast
 from fractions import Fraction
@@ -70,6 +75,7 @@ BUILDER = 'Reactor._setup_zpts'
 ROUND_DIGITS = 9        # np.around(x, d >= 9) is treated as the identity
 MAX_PATHS = 512
 EL = '@e'               # placeholder: "the current element" of a vector
+EPS = '@s'              # marker of strictness: E + @s <= 0 stands for E < 0
 
 _PASS = ('float', 'np.float64', 'np.asarray', 'np.array', 'np.atleast_1d',
          'list', 'tuple', 'np.sort', 'sorted', 'np.unique', 'np.copy',
@@ -119,6 +125,8 @@ def _fmt(p):
         return '0'
     out = []
     for k, v in sorted(p.t.items()):
+        if k == ((EPS, 1),):
+            continue            # strictness marker, not a quantity
         m = '*'.join(s if e == 1 else '%s^%d' % (s, e) for s, e in k)
         c = float(v)
         if not m:
@@ -129,7 +137,7 @@ def _fmt(p):
             out.append('-' + m)
         else:
             out.append('%g*%s' % (c, m))
-    return ' + '.join(out).replace('+ -', '- ')
+    return ' + '.join(out).replace('+ -', '- ') if out else '0'
 
 
 # ---------------------------------------------------------------------------
@@ -155,17 +163,23 @@ class Maybe:
     """Either a value (with the facts that hold when it is one) or None
     (`next(it, None)`, a helper with a `return None` path)."""
 
-    def __init__(self, val, facts=()):
+    def __init__(self, val, facts=(), none=()):
         self.val, self.facts = val, tuple(facts)
+        # what is known when it is None: (base, predicate) pairs, "no
+        # element of base satisfies the predicate"
+        self.none = tuple(none)
 
 
 class Vec:
     """A sequence over container `base`: element value `val` (polynomial in
     the placeholder EL) for those elements that satisfy `facts` (E <= 0)."""
 
-    def __init__(self, base, val, facts=(), align='base'):
+    def __init__(self, base, val, facts=(), align='base', exact=False):
         self.base, self.val, self.facts = base, val, tuple(facts)
         self.align = align      # token: which positions the items sit at
+        # exact: the items are *all* elements of base that satisfy `facts`,
+        # in the order of base (not a slice, not re-ordered)
+        self.exact = exact
 
 
 class Mask:
@@ -173,9 +187,13 @@ class Mask:
     `align` = its positions: a mask selects from, and an index found in it
     points into, sequences with the same positions only)."""
 
-    def __init__(self, base, over, t, f, mid, align):
+    def __init__(self, base, over, t, f, mid, align, te=False, fe=False,
+                 xo=False):
         self.base, self.over = base, tuple(over)
         self.t, self.f, self.align = tuple(t), tuple(f), align
+        # te / fe: `t` (`f`) is not only implied by a true (false) entry but
+        # also implies it; xo: computed over an exact vector (see Vec)
+        self.te, self.fe, self.xo = te, fe, xo
         # two evaluations of the same predicate over the same sequence are
         # the same mask (a temporary may have been inlined)
         self.id = 'mask(%s|%s|%r|%r|%r)' % (base, align, self.over, self.t,
@@ -190,8 +208,9 @@ class IdxSet:
 class Idx:
     """Index of an element for which the mask is true."""
 
-    def __init__(self, mask):
+    def __init__(self, mask, pos=None):
         self.mask = mask
+        self.pos = pos          # 'first' / 'last' true entry, None: any
 
 
 class ElemIdx:
@@ -199,6 +218,39 @@ class ElemIdx:
 
     def __init__(self, base, sym, align):
         self.base, self.sym, self.align = base, sym, align
+
+
+class Len:
+    """`len(X)` / `X.size` of a collection (only whether it is zero is
+    used; C05.R2 on values)."""
+
+    def __init__(self, of):
+        self.of = of
+
+
+def _none_of(mask):
+    """What is known when no entry of the mask is true: no element of the
+    base container satisfies (the filter of the masked vector and) the
+    predicate -- provided the predicate is equivalent to the entry being
+    true and the masked vector holds every such element."""
+    if mask.te and mask.xo:
+        return ((mask.base, tuple(mask.over) + tuple(mask.t)),)
+    return ()
+
+
+class Known(Poly):
+    """Not an inequality (the zero polynomial): carries "no element of base
+    satisfies the predicate" pairs through the facts of a case split, where
+    only polynomials travel (C05.R2 on values)."""
+    __slots__ = ('none',)
+
+    def __init__(self, none):
+        Poly.__init__(self)
+        self.none = tuple(none)
+
+
+def _known(none):
+    return [Known(none)] if none else []
 
 
 class Tup:
@@ -218,16 +270,22 @@ class ListVal:
 
 class Cond:
     def __init__(self, t=(), f=(), any_t=(), bind_t=None, bind_f=None,
-                 value=None, any_f=()):
+                 value=None, any_f=(), te=False, fe=False, none_t=(),
+                 none_f=()):
         self.t, self.f, self.any_t = tuple(t), tuple(f), tuple(any_t)
         self.any_f = tuple(any_f)
         self.bind_t, self.bind_f = bind_t or {}, bind_f or {}
         self.value = value      # True / False when statically decided
+        # te / fe: the facts t (f) are equivalent to the test being true
+        # (false), not only implied by it; none_t / none_f: (base,
+        # predicate) pairs -- no element of base satisfies the predicate
+        self.te, self.fe = te, fe
+        self.none_t, self.none_f = tuple(none_t), tuple(none_f)
 
     def neg(self):
         return Cond(self.f, self.t, self.any_f, self.bind_f, self.bind_t,
                     None if self.value is None else not self.value,
-                    self.any_t)
+                    self.any_t, self.fe, self.te, self.none_f, self.none_t)
 
 
 class FuncRef:
@@ -240,13 +298,18 @@ class _Unmodelled(Exception):
 
 
 class State:
-    def __init__(self, env=None, facts=(), anyk=()):
+    def __init__(self, env=None, facts=(), anyk=(), nonek=(), exact=True):
         self.env = dict(env or {})
         self.facts = list(facts)
         self.anyk = set(anyk)
+        # (base, predicate): no element of base satisfies the predicate
+        self.nonek = list(nonek)
+        # the facts collected since the start of the loop pass are not only
+        # necessary but also sufficient for being on this path
+        self.exact = exact
 
     def copy(self):
-        return State(self.env, self.facts, self.anyk)
+        return State(self.env, self.facts, self.anyk, self.nonek, self.exact)
 
 
 class World:
@@ -263,6 +326,10 @@ class World:
         self.bound = None       # loop invariant tried for carried numbers
         self.landing_ok = set()  # symbols known to be req_dz or bound - z
         self.at_index = {}      # (vector, index value) -> element symbol
+        # C05.R2 on values: strictness of comparisons is kept (EPS marker)
+        # and the position of a selected element is recorded
+        self.strict = False
+        self.order = {}         # element symbol -> [(first|last, base, pred)]
 
     def fresh(self, prefix):
         self.n += 1
@@ -315,7 +382,7 @@ class World:
 # the prover: N >= 0 from facts E <= 0, R > 0
 
 def _foreign(p):
-    return [k for k in sorted(p.t) if any(s != 'R' for s, e in k)]
+    return [k for k in sorted(p.t) if any(s not in ('R', EPS) for s, e in k)]
 
 
 def _nonneg(p):
@@ -438,9 +505,12 @@ class Interp:
             return _pc(int(v.value))
         return None
 
-    def elem_of(self, vec, st, extra=(), index=None):
+    def elem_of(self, vec, st, extra=(), index=None, order=None):
         """An element of the vector (existential witness): a fresh symbol,
-        or the one already chosen for the same vector and index value."""
+        or the one already chosen for the same vector and index value.
+        order = 'first' / 'last': it is the first / last of the items that
+        satisfy `extra` (recorded when the vector is exact, i.e. when that
+        says something about the elements of the base container)."""
         key = None
         if index is not None:
             key = (vec.base, vec.align, repr(vec.val), repr(vec.facts),
@@ -450,6 +520,10 @@ class Interp:
             e = self.w.new_elem(vec.base)
             if key is not None:
                 self.w.at_index[key] = e
+        if order and vec.exact and self.w.strict:
+            k = (order, vec.base, tuple(vec.facts) + tuple(extra))
+            if k not in self.w.order.setdefault(e, []):
+                self.w.order[e].append(k)
         es = Poly.sym(e)
         for f in tuple(vec.facts) + tuple(extra):
             st.facts.append(f.subs(EL, es))
@@ -473,9 +547,17 @@ class Interp:
             return Cond(value=False)
         if isinstance(v, Maybe) and isinstance(n, ast.Name):
             return Cond(t=v.facts, bind_t={n.id: v.val},
-                        bind_f={n.id: NoneVal()})
+                        bind_f={n.id: NoneVal()}, none_f=v.none)
         if isinstance(v, Num) and _is_const(v.p):
             return Cond(value=bool(_cval(v.p)))
+        if self.w.strict:
+            # truth value of a collection: it has an item
+            if isinstance(v, Len):
+                v = v.of
+            if isinstance(v, IdxSet):
+                return Cond(any_t=(v.mask.id,), none_f=_none_of(v.mask))
+            if isinstance(v, Vec) and v.exact:
+                return Cond(none_f=((v.base, v.facts),))
         return Cond()
 
     def compare(self, n, st):
@@ -490,14 +572,17 @@ class Interp:
                     pos = isinstance(ops[0], (ast.Is, ast.Eq))
                     if isinstance(x, Maybe) and isinstance(node, ast.Name):
                         c = Cond(f=x.facts, bind_t={node.id: NoneVal()},
-                                 bind_f={node.id: x.val})
+                                 bind_f={node.id: x.val}, none_t=x.none)
                     elif isinstance(x, NoneVal):
                         c = Cond(value=True)
-                    elif isinstance(x, (Num, Vec, Mask, ListVal, Tup)):
+                    elif isinstance(x, (Num, Vec, Mask, ListVal, Tup, Idx,
+                                        ElemIdx, IdxSet)):
                         c = Cond(value=False)
                     else:
                         c = Cond()
                     return c if pos else c.neg()
+        if len(ops) == 1 and any(isinstance(v, Len) for v in vals):
+            return self.len_cond(vals, ops[0])
         vec = [v for v in vals if isinstance(v, Vec)]
         if vec:
             base, over, align = vec[0].base, vec[0].facts, vec[0].align
@@ -509,25 +594,34 @@ class Interp:
         if any(p is None for p in ps):
             return Cond() if not vec else self.opaque(n)
         tt, ff = [], []
+        # strictness (kept for C05.R2 on values only): a < b is a - b + @s
+        # <= 0; its negation b <= a carries no marker, and the other way round
+        eps = Poly.sym(EPS) if self.w.strict else Poly()
+        te = True
         for i, op in enumerate(ops):
             a, b = ps[i], ps[i + 1]
             if isinstance(op, (ast.Lt, ast.LtE)):
-                tt.append(a - b)
-                f1 = [b - a]
+                lt = isinstance(op, ast.Lt)
+                tt.append(a - b + eps if lt else a - b)
+                f1 = [b - a if lt else b - a + eps]
             elif isinstance(op, (ast.Gt, ast.GtE)):
-                tt.append(b - a)
-                f1 = [a - b]
+                gt = isinstance(op, ast.Gt)
+                tt.append(b - a + eps if gt else b - a)
+                f1 = [a - b if gt else a - b + eps]
             elif isinstance(op, ast.Eq):
                 tt += [a - b, b - a]
                 f1 = []
             elif isinstance(op, ast.NotEq):
                 f1 = [a - b, b - a]
+                te = False
             else:
                 return Cond() if not vec else self.opaque(n)
             if len(ops) == 1:
                 ff = f1
+        fe = len(ops) == 1 and not isinstance(ops[0], ast.Eq)
         if vec:
-            return Mask(base, over, tt, ff, self.w.fresh('mask'), align)
+            return Mask(base, over, tt, ff, self.w.fresh('mask'), align,
+                        te=te, fe=fe, xo=all(v.exact for v in vec))
         value = None
         if len(ops) == 1 and _is_const(ps[0] - ps[1]):
             d = _cval(ps[0] - ps[1])
@@ -535,20 +629,46 @@ class Interp:
             value = {ast.Lt: d < 0, ast.LtE: d <= 0, ast.Gt: d > 0,
                      ast.GtE: d >= 0, ast.Eq: d == 0,
                      ast.NotEq: d != 0}.get(type(op))
-        return Cond(tt, ff, value=value)
+        return Cond(tt, ff, value=value, te=te, fe=fe)
+
+    def len_cond(self, vals, op):
+        """`len(X) <op> c`: whether the collection X has an item."""
+        flip = not isinstance(vals[0], Len)
+        ln, other = (vals[1], vals[0]) if flip else (vals[0], vals[1])
+        p = self.num(other) if not isinstance(other, Len) else None
+        if p is None or not _is_const(p):
+            return Cond()
+        c = _cval(p)
+        kind = type(op)
+        if flip:
+            kind = {ast.Lt: ast.Gt, ast.Gt: ast.Lt, ast.LtE: ast.GtE,
+                    ast.GtE: ast.LtE}.get(kind, kind)
+        some = self.as_cond(ln)             # true: X has an item
+        if (kind, c) in ((ast.Gt, 0), (ast.GtE, 1), (ast.NotEq, 0)):
+            return some
+        if (kind, c) in ((ast.Eq, 0), (ast.Lt, 1), (ast.LtE, 0)):
+            return some.neg()
+        return Cond()
 
     def conj(self, vals, is_and):
         if all(isinstance(v, Mask) for v in vals):
             m0 = vals[0]
             if any(v.base != m0.base or v.align != m0.align for v in vals):
                 return None
+            xo = all(v.xo for v in vals)
+            one = len(vals) == 1
             if is_and:
                 return Mask(m0.base, m0.over, sum((v.t for v in vals), ()),
-                            (), self.w.fresh('mask'), m0.align)
-            return Mask(m0.base, m0.over, (), sum((v.f for v in vals), ()),
-                        self.w.fresh('mask'), m0.align)
+                            m0.f if one else (), self.w.fresh('mask'),
+                            m0.align, te=all(v.te for v in vals),
+                            fe=one and m0.fe, xo=xo)
+            return Mask(m0.base, m0.over, m0.t if one else (),
+                        sum((v.f for v in vals), ()),
+                        self.w.fresh('mask'), m0.align, te=one and m0.te,
+                        fe=all(v.fe for v in vals), xo=xo)
         cs = [self.as_cond(v) for v in vals]
         bt, bf, at = {}, {}, ()
+        one = len(cs) == 1
         if is_and:
             for c in cs:
                 bt.update(c.bind_t)
@@ -556,12 +676,20 @@ class Interp:
             value = False if any(c.value is False for c in cs) else (
                 True if all(c.value is True for c in cs) else None)
             return Cond(sum((c.t for c in cs), ()),
-                        cs[0].f if len(cs) == 1 else (), at, bt, bf, value)
+                        cs[0].f if one else (), at, bt, bf, value,
+                        te=all(c.te or c.value is True for c in cs),
+                        fe=one and cs[0].fe,
+                        none_t=sum((c.none_t for c in cs), ()),
+                        none_f=cs[0].none_f if one else ())
         for c in cs:
             bf.update(c.bind_f)
         value = True if any(c.value is True for c in cs) else (
             False if all(c.value is False for c in cs) else None)
-        return Cond((), sum((c.f for c in cs), ()), (), bt, bf, value)
+        return Cond((), sum((c.f for c in cs), ()), (), bt, bf, value,
+                    te=one and cs[0].te,
+                    fe=all(c.fe or c.value is False for c in cs),
+                    none_t=cs[0].none_t if one else (),
+                    none_f=sum((c.none_f for c in cs), ()))
 
     # -- expressions --
     def eval(self, n, st):
@@ -611,11 +739,15 @@ class Interp:
             if t == REQ and t not in self.w.ver:
                 return Num(Poly.sym('R'))
             if t == BNDS and t not in self.w.ver:
-                return Vec(BNDS, Poly.sym(EL))
+                return Vec(BNDS, Poly.sym(EL), exact=True)
             if n.attr == 'T':
                 v = self.eval(n.value, st)
                 if isinstance(v, (Vec, Mask)):
                     return v
+            if n.attr == 'size' and self.w.strict:
+                v = self.eval(n.value, st)
+                if isinstance(v, (IdxSet, Vec)):
+                    return Len(v)
             return self.opaque(n)
         if isinstance(n, ast.UnaryOp):
             v = self.eval(n.operand, st)
@@ -626,11 +758,12 @@ class Interp:
             if isinstance(n.op, ast.Invert):
                 if isinstance(v, Mask):
                     return Mask(v.base, v.over, v.f, v.t,
-                                self.w.fresh('mask'), v.align)
+                                self.w.fresh('mask'), v.align, te=v.fe,
+                                fe=v.te, xo=v.xo)
                 return self.opaque(n)
             if isinstance(v, Vec):
                 return Vec(v.base, -v.val if isinstance(n.op, ast.USub)
-                           else v.val, v.facts, v.align)
+                           else v.val, v.facts, v.align, v.exact)
             p = self.num(v)
             if p is None:
                 return self.opaque(n)
@@ -649,6 +782,19 @@ class Interp:
                 return self.eval(n.body, st)
             if c.value is False:
                 return self.eval(n.orelse, st)
+            if self.w.strict:
+                # each arm in the state of its branch (bindings of a
+                # `x is None` test, what is known there)
+                nf, nn = len(st.facts), len(st.nonek)
+                sa, sb = self.branch(st, c, True), self.branch(st, c, False)
+                a, b = self.eval(n.body, sa), self.eval(n.orelse, sb)
+                pa, pb = self.num(a), self.num(b)
+                if pa is not None and pb is not None and not isinstance(
+                        a, (Vec, Mask)) and not isinstance(b, (Vec, Mask)):
+                    return self.choice([
+                        (pa, sa.facts[nf:] + _known(sa.nonek[nn:])),
+                        (pb, sb.facts[nf:] + _known(sb.nonek[nn:]))])
+                return self.opaque(n)
             a, b = self.eval(n.body, st), self.eval(n.orelse, st)
             pa, pb = self.num(a), self.num(b)
             if pa is not None and pb is not None and not isinstance(
@@ -728,7 +874,8 @@ class Interp:
             r = Poly.sym('<%s(%s, %s)>' % (type(op).__name__, _fmt(pa),
                                            _fmt(pb)))
         if vec:
-            return Vec(vec.base, r, vec.facts, vec.align)
+            return Vec(vec.base, r, vec.facts, vec.align,
+                       all(x.exact for x in (va, vb) if x))
         return Num(r)
 
     def bind_iter(self, it, target, st, sym):
@@ -742,12 +889,17 @@ class Interp:
 
         def one(v):
             if isinstance(v, Vec):
+                self.iter_exact = self.iter_exact and v.exact
                 return (Num(inst(v.val)), v.base, [inst(f) for f in v.facts],
                         v.align)
             if isinstance(v, Mask):
-                return (Cond([inst(f) for f in v.t], [inst(f) for f in v.f]),
+                self.iter_exact = self.iter_exact and v.xo
+                return (Cond([inst(f) for f in v.t], [inst(f) for f in v.f],
+                             te=v.te, fe=v.fe),
                         v.base, [inst(f) for f in v.over], v.align)
             return None
+        # (left True only when every iterated sequence is exact, see Vec)
+        self.iter_exact = True
         names = None
         if isinstance(target, ast.Name):
             names = [target.id]
@@ -786,6 +938,7 @@ class Interp:
                 v = self.eval(inner, st)
                 if isinstance(v, (Vec, Mask)):
                     over = v.facts if isinstance(v, Vec) else v.over
+                    self.iter_exact = v.exact if isinstance(v, Vec) else v.xo
                     return ({names[0]: ElemIdx(v.base, sym, v.align)},
                             v.base, [inst(f) for f in over], v.align)
             return None
@@ -807,22 +960,26 @@ class Interp:
         sub = st.copy()
         sub.env.update(binds)
         facts = list(over)
+        src_exact = filt_exact = self.iter_exact
         for c in g.ifs:
-            facts += list(self.cond(c, sub).t)
+            c = self.cond(c, sub)
+            facts += list(c.t)
+            filt_exact = filt_exact and (c.te or c.value is True)
         v = self.eval(n.elt, sub)
         # a filtered comprehension has positions of its own
         out_align = align if not g.ifs else 'comp(%s|%r)' % (
             align, facts[len(over):])
         if isinstance(v, Cond):
             return Mask(base, facts, v.t, v.f, self.w.fresh('mask'),
-                        out_align)
+                        out_align, te=v.te, fe=v.fe, xo=filt_exact)
         if isinstance(v, ElemIdx) and v.sym == EL and v.base == base:
             # positions (in v.align) of the elements that pass the filter
             return IdxSet(Mask(base, over, facts[len(over):], (),
-                               self.w.fresh('mask'), v.align))
+                               self.w.fresh('mask'), v.align,
+                               te=filt_exact, xo=src_exact))
         p = self.num(v)
         if p is not None and not isinstance(v, (Vec, Mask)):
-            return Vec(base, p, facts, out_align)
+            return Vec(base, p, facts, out_align, filt_exact)
         return self.opaque(n)
 
     def subscript(self, n, st):
@@ -847,15 +1004,18 @@ class Interp:
                                   k.mask.id if isinstance(k, IdxSet) else '')
             if isinstance(k, Mask):
                 if k.base == v.base and k.align == v.align:
-                    return Vec(v.base, v.val, v.facts + k.t, sel)
+                    return Vec(v.base, v.val, v.facts + k.t, sel,
+                               v.exact and k.te)
                 return Vec(v.base, v.val, v.facts, sel)
             if isinstance(k, IdxSet):
                 if k.mask.base == v.base and k.mask.align == v.align:
-                    return Vec(v.base, v.val, v.facts + k.mask.t, sel)
+                    return Vec(v.base, v.val, v.facts + k.mask.t, sel,
+                               v.exact and k.mask.te)
                 return Vec(v.base, v.val, v.facts, sel)
             if isinstance(k, Idx):
                 if k.mask.base == v.base and k.mask.align == v.align:
-                    return self.elem_of(v, st, k.mask.t)
+                    return self.elem_of(v, st, k.mask.t,
+                                        order=k.pos if k.mask.te else None)
                 return self.elem_of(v, st)
             if isinstance(k, ElemIdx):
                 if k.base == v.base and k.align == v.align:
@@ -863,14 +1023,15 @@ class Interp:
                                if k.sym != EL else v.val)
                 return self.elem_of(v, st)
             pk = self.num(k) if isinstance(k, (Num, Opaque)) else None
-            return self.elem_of(v, st, index=pk)
+            return self.elem_of(v, st, index=pk, order={
+                0: 'first', -1: 'last'}.get(const(n.slice)))
         if isinstance(v, Tup):
             c = const(n.slice)
             if isinstance(c, int) and -len(v.items) <= c < len(v.items):
                 return v.items[c]
             return self.opaque(n)
         if isinstance(v, IdxSet):
-            return Idx(v.mask)
+            return Idx(v.mask, {0: 'first', -1: 'last'}.get(const(n.slice)))
         if isinstance(v, ListVal):
             return Num(Poly.sym(self.list_sym(v, const(n.slice) == -1)))
         if isinstance(v, Mask):
@@ -973,7 +1134,7 @@ class Interp:
         if nm in _ANY and len(args) == 1 or (meth == 'any' and not args):
             v = self.eval(args[0] if nm in _ANY else recv, st)
             if isinstance(v, Mask):
-                return Cond(any_t=(v.id,))
+                return Cond(any_t=(v.id,), none_f=_none_of(v))
             return Cond()
         if nm in ('all', 'np.all') or meth == 'all':
             return Cond()
@@ -986,7 +1147,7 @@ class Interp:
             v = self.eval(args[0], st)
             if isinstance(v, Mask):
                 return Mask(v.base, v.over, v.f, v.t, self.w.fresh('mask'),
-                            v.align)
+                            v.align, te=v.fe, fe=v.te, xo=v.xo)
             if isinstance(v, Cond):
                 return v.neg()
             return self.opaque(n)
@@ -1012,26 +1173,41 @@ class Interp:
                 (meth == 'argmax' and not args):
             v = self.eval(args[0] if args else recv, st)
             if isinstance(v, Mask) and v.id in st.anyk:
-                return Idx(v)
+                return Idx(v, 'first')      # of equal entries: the first
             return self.opaque(n)
         if meth == 'index' and len(args) == 1 and const(args[0]) is True:
             v = self.eval(recv, st)
-            return Idx(v) if isinstance(v, Mask) else self.opaque(n)
+            return Idx(v, 'first') if isinstance(v, Mask) else self.opaque(n)
         if nm == 'next' and args:
             v = self.eval(args[0], st)
             if isinstance(v, Vec):
-                e = self.elem_of(v, st)
+                # (the facts of the element hold only where there is one)
+                tmp = State()
+                e = self.elem_of(v, tmp, order='first')
                 if len(args) == 1:
+                    st.facts += tmp.facts
                     return e
                 d = self.eval(args[1], st)
                 if isinstance(d, NoneVal):
-                    return Maybe(e)
+                    return Maybe(e, tmp.facts, ((v.base, v.facts),)
+                                 if v.exact else ())
                 pd = self.num(d)
                 if pd is not None:
-                    return self.choice([(e.p, []), (pd, [])])
+                    return self.choice([(e.p, list(tmp.facts)), (pd, [])])
             return self.opaque(n)
         if nm == 'len' or meth in ('size',):
+            if self.w.strict and nm == 'len' and len(args) == 1:
+                v = self.eval(args[0], st)
+                if isinstance(v, (IdxSet, Vec)):
+                    return Len(v)
             return self.opaque(n)
+        if self.w.strict and (nm in ('np.count_nonzero', 'np.sum', 'sum')
+                              and len(args) == 1 and not kw or
+                              meth == 'sum' and not args and not kw):
+            # the number of true entries of a mask
+            v = self.eval(args[0] if args else recv, st)
+            if isinstance(v, Mask):
+                return Len(IdxSet(v))
         # list mutation
         if meth in ('append', 'extend', 'insert') and recv is not None:
             lv = self.eval(recv, st)
@@ -1093,9 +1269,14 @@ class Interp:
         if len(vals) == 1:
             v = vals[0]
             if isinstance(v, Vec):
-                return self.elem_of(v, st)
+                # of a vector that increases / decreases with the element
+                c = v.val.t.get(((EL, 1),), 0)
+                lin = EL not in (v.val - _scale(Poly.sym(EL), c)).symbols()
+                up = (c > 0) == is_min
+                return self.elem_of(v, st, order=None if not lin or c == 0
+                                    else 'first' if up else 'last')
             if isinstance(v, IdxSet):
-                return Idx(v.mask)
+                return Idx(v.mask, 'first' if is_min else 'last')
             if isinstance(v, Tup):
                 vals = v.items
             elif isinstance(v, ListVal) and v.display:
@@ -1132,14 +1313,14 @@ class Interp:
             if k.arg not in params or k.arg in env:
                 return None
             env[k.arg] = self.eval(k.value, st)
-        s0 = State(env, st.facts, st.anyk)
+        s0 = State(env, st.facts, st.anyk, st.nonek, st.exact)
         defaults = dict(zip(reversed(callee.params), reversed(a.defaults)))
         for p in params:
             if p not in s0.env:
                 if p not in defaults:
                     return None
                 s0.env[p] = sub.eval(defaults[p], State())
-        nfacts = len(st.facts)
+        nfacts, nnone = len(st.facts), len(st.nonek)
         try:
             outs = sub.run_body(s0)
         except _Unmodelled:
@@ -1151,26 +1332,34 @@ class Interp:
         if len(rets) == 1:
             v, s = rets[0]
             st.facts += s.facts[nfacts:]
+            st.nonek += s.nonek[nnone:]
+            st.exact = st.exact and s.exact
             return v
+        st.exact = False        # (which return was taken is not in facts)
         some = [(v, s) for v, s in rets if not isinstance(v, NoneVal)]
         if len(some) < len(rets):
             if not some:
                 return NoneVal()
+            # what is known where the helper returns None
+            none = [s.nonek[nnone:] for v, s in rets
+                    if isinstance(v, NoneVal)]
+            none = none[0] if len(none) == 1 else ()
             if len(some) == 1:
-                return Maybe(some[0][0], some[0][1].facts[nfacts:])
+                return Maybe(some[0][0], some[0][1].facts[nfacts:], none)
             alts = []
             for v, s in some:
                 p = self.num(v)
                 if p is None or isinstance(v, (Vec, Mask)):
                     return None
                 alts.append((p, list(s.facts[nfacts:])))
-            return Maybe(self.choice(alts))
+            return Maybe(self.choice(alts), none=none)
         cands = []
         for v, s in rets:
             p = self.num(v)
             if p is None or isinstance(v, (Vec, Mask)):
                 return None
-            cands.append((p, list(s.facts[nfacts:])))
+            cands.append((p, list(s.facts[nfacts:]) + (_known(
+                s.nonek[nnone:]) if self.w.strict else [])))
         return self.choice(cands)
 
     # -- statements --
@@ -1242,6 +1431,9 @@ class Interp:
         out.facts += list(c.t if pol else c.f)
         out.env.update(c.bind_t if pol else c.bind_f)
         out.anyk |= set(c.any_t if pol else c.any_f)
+        out.nonek += list(c.none_t if pol else c.none_f)
+        if c.value is None and not (c.te if pol else c.fe):
+            out.exact = False
         return out
 
     def carried(self, loop):
@@ -1383,6 +1575,7 @@ class Interp:
                     out.append((o, how))
             for h in s.handlers:
                 hs = pre.copy()
+                hs.exact = False
                 for nm in self.assigned(s.body):
                     hs.env[nm] = Opaque(self.w.fresh(nm))
                 if h.name:
@@ -1413,6 +1606,38 @@ class Interp:
                     out.add(x.target.id)
         return out
 
+    def search_knowledge(self, search, nb, n0, ver0, leaving):
+        """A `for` loop over an exact vector (see Vec) that is left by
+        return / break under a condition on the current element alone is a
+        search for the first element that satisfies it.  Returns the (base,
+        predicate) pairs no element satisfies when the loop runs to its end
+        and records, for the element of a leaving pass, that no earlier
+        element satisfies them (C05.R2 on values).  A leaving path counts
+        when its facts are equivalent to taking it (State.exact) and speak
+        of nothing but the element and quantities fixed before the loop."""
+        import re
+        sym, base, over = search
+        if self.w.ver != ver0:
+            return []           # something the tests may read was stored to
+        el = Poly.sym(EL)
+        found = []
+        for o in leaving:
+            path = o.facts[nb:]
+            # (symbols made during the pass, items of lists: not fixed)
+            local = [x for f in path for x in f.symbols() if x != sym and (
+                self.w.is_choice(x) or any(
+                    int(k) > n0 for k in re.findall(r'#(\d+)', x)))]
+            if not o.exact or local:
+                continue
+            k = (base, tuple(f.subs(sym, el) for f in over + path))
+            if k not in found:
+                found.append(k)
+        for k in found:
+            e = ('first',) + k
+            if e not in self.w.order.setdefault(sym, []):
+                self.w.order[sym].append(e)
+        return found
+
     def loop(self, s, st, try_inv=True):
         carried = self.carried(s)
         every = self.assigned(s.body)
@@ -1421,6 +1646,7 @@ class Interp:
             every |= {t.id for t in stmt_targets(s)
                       if isinstance(t, ast.Name)}
         body0 = st.copy()
+        n0, ret0, ver0 = self.w.n, len(self.returns), dict(self.w.ver)
         # a number carried round the loop: try the invariant "<= bound"
         # (assumed at the start of a pass, shown at its end; if it is not
         # inductive the loop is analysed again with the name unknown)
@@ -1436,6 +1662,7 @@ class Interp:
                 body0.facts.append(Poly.sym(sym) - self.w.bound)
             else:
                 body0.env[nm] = Opaque(self.w.fresh(nm))
+        search = None           # (element symbol, base, filter) of a search
         if isinstance(s, ast.For):
             # the element symbol is created first so that bind_iter can
             # instantiate the element facts with it
@@ -1446,6 +1673,8 @@ class Interp:
                 self.w.elem[sym] = base
                 body0.env.update(binds)
                 body0.facts += list(over)
+                if self.w.strict and self.iter_exact:
+                    search = (sym, base, list(over))
             else:
                 self.eval(s.iter, body0)
                 self.assign(s.target, Opaque(self.w.fresh(_s(s.target))),
@@ -1456,7 +1685,15 @@ class Interp:
                 return self.block(s.orelse, st) if s.orelse else \
                     [(st, 'next')]
             body0 = self.branch(body0, c, True)
+        body0.exact = True
+        nb = len(body0.facts)
         outs = self.block(s.body, body0)
+        found = self.search_knowledge(search, nb, n0, ver0, [
+            st_ for _, _, st_ in self.returns[ret0:]] + [
+                o for o, how in outs if how == 'break']) if search else []
+        for o, how in outs:
+            # (that the loop was left / completed is not in the facts)
+            o.exact = False
         for nm, sym in inv.items():
             back = [o.env.get(nm) for o, how in outs
                     if how in ('next', 'continue')]
@@ -1467,6 +1704,8 @@ class Interp:
                 return self.loop(s, st, try_inv=False)
         # fall-through: zero or more complete passes
         after = st.copy()
+        after.exact = False
+        after.nonek += found    # no element made the loop leave
         for nm, sym in inv.items():
             out_sym = self.w.fresh('after-loop-' + nm)
             after.facts.append(Poly.sym(out_sym) - self.w.bound)
@@ -1741,3 +1980,238 @@ def run(ctx):
     _single_writer(ctx, rule, store)
     # one return of the anchor (bound + landing) and one stored step at least
     ctx.min_instances(rule, 3)
+
+
+# ---------------------------------------------------------------------------
+# C05.R2 decided on values (called from rules/c05.py:r2, and through its
+# alias from C03.R7)
+#
+# Clause: `_check_dz(z)` returns req_dz, or the distance to the FIRST
+# boundary strictly inside (z, z + req_dz).  On values, for every return
+# path with returned step s:
+#   (landing)   s is req_dz or b - z for an element b of self.axial_bnds;
+#   (crossing)  s <= req_dz;
+#   (ahead)     s > 0 -- a boundary counts only if it is strictly ahead,
+#               with z <= b the step at a boundary plane is 0 (hang);
+#   (first)     no element of self.axial_bnds lies strictly inside
+#               (z, z + s): the full step is taken only when nothing is
+#               crossed, and of the crossed boundaries the first is taken.
+# The interpreter above runs with World.strict: comparisons keep their
+# strictness (a < b is the fact a - b + @s <= 0, @s an arbitrarily small
+# positive number), and three kinds of knowledge beyond "an element for which
+# P holds" are kept: which element of an exact vector (every element of the
+# sorted boundary set that satisfies the filter, in order) was taken -- the
+# first or the last with P (`np.where(M)[0][0]`, `M.index(True)`,
+# `np.argmax`, `X[M][0]`, `hits[0]`, `min`, `next`, the element at which a
+# search loop is left); that no element satisfies P (`not any(M)`, an empty
+# filter result, `next(.., None) is None`, a helper returning None, a search
+# loop that ran to its end) -- only for predicates whose facts are equivalent
+# to the test, not merely implied by it.  (ahead) and (first) are refutations:
+# the facts of the path, the assumption (s <= 0, resp. an element x with
+# z < x < z + s) and the knowledge instantiated at x must have no solution;
+# decided by Fourier-Motzkin elimination over the monomials (exact, complete
+# for linear facts).  Anything else -- an element taken at an unknown
+# position, a predicate the interpreter could not make exact -- leaves the
+# refutation open and is reported.
+
+def _infeasible(facts, cap=600):
+    """No values satisfy all `f <= 0` (R > 0; @s > 0 as small as needed)."""
+    eps_k = ((EPS, 1),)
+    rows = [f for f in facts] + [Poly.sym(EPS) - Poly.sym('R')]
+
+    def variables(p):
+        return [k for k in p.t if k != () and k != eps_k]
+
+    def absurd(p):
+        c0, c1 = p.t.get((), 0), p.t.get(eps_k, 0)
+        return c0 > 0 or (c0 == 0 and c1 > 0)
+    seen = set()
+    while True:
+        live = []
+        for r in rows:
+            if not variables(r):
+                if absurd(r):
+                    return True
+                continue
+            key = repr(sorted(r.t.items()))
+            if key not in seen:
+                seen.add(key)
+                live.append(r)
+        if not live:
+            return False
+        count = {}
+        for r in live:
+            for k in variables(r):
+                c = count.setdefault(k, [0, 0])
+                c[0 if r.t[k] > 0 else 1] += 1
+        m = min(sorted(count), key=lambda k: count[k][0] * count[k][1])
+        pos = [r for r in live if r.t.get(m, 0) > 0]
+        neg = [r for r in live if r.t.get(m, 0) < 0]
+        rows = [r for r in live if m not in r.t]
+        if len(rows) + len(pos) * len(neg) > cap:
+            return False
+        for a in pos:
+            for b in neg:
+                rows.append(_scale(a, -b.t[m]) + _scale(b, a.t[m]))
+        seen = set()
+
+
+def _cases(world, polys, depth=0):
+    """Like _expand, but the case splits of the facts are opened as well
+    (`min(R, d)` = R under the fact R <= d, d itself a split)."""
+    cs = sorted({s for p in polys for s in p.symbols() if world.is_choice(s)})
+    if not cs or depth > 8:
+        yield polys
+        return
+    c = cs[0]
+    for cand, cf in world.candidates(c):
+        sub = [p.subs(c, cand) if c in p.symbols() else p
+               for p in list(polys) + list(cf)]
+        for out in _cases(world, sub, depth + 1):
+            yield out
+
+
+def _negated(f):
+    """The inequality that holds when `f <= 0` does not."""
+    c = f.t.get(((EPS, 1),), 0)
+    eps = Poly.sym(EPS)
+    if c > 0:
+        return -(f - _scale(eps, c))
+    return eps - f
+
+
+def _refuted(facts, pieces, budget):
+    """facts and one alternative of every piece have no common solution
+    (pieces: [[fact, ...] alternatives]; a piece without alternatives cannot
+    be satisfied at all)."""
+    if _infeasible(facts):
+        return True
+    if not pieces:
+        return False
+    # a piece all of whose alternatives are impossible settles it
+    for p in pieces:
+        budget[0] -= len(p) + 1
+        if budget[0] < 0:
+            return False
+        if all(_infeasible(facts + alt) for alt in p):
+            return True
+    first, rest = pieces[0], pieces[1:]
+    return all(_refuted(facts + alt, rest, budget) for alt in first)
+
+
+def _knowledge_at(world, st, syms, x):
+    """The universally quantified knowledge of the path, instantiated at the
+    element x of the boundary set: a list of pieces (see _refuted)."""
+    xs = Poly.sym(x)
+    pieces = []
+    for base, pred in st.nonek:
+        if base == BNDS:
+            pieces.append([[_negated(f.subs(EL, xs))] for f in pred])
+    for e in sorted(syms):
+        for kind, base, pred in world.order.get(e, ()):
+            if base != BNDS:
+                continue
+            es = Poly.sym(e)
+            beyond = es - xs if kind == 'first' else xs - es
+            pieces.append([[beyond]] + [[_negated(f.subs(EL, xs))]
+                                        for f in pred])
+    return pieces
+
+
+def step_clause(ctx, rule):
+    """C05.R2 on the values `_check_dz` returns (see above)."""
+    repo = ctx.repo
+    fi = repo.func('reactor', ANCHOR)
+    if len(fi.params) < 2:
+        raise AnalysisError('%s: %s(self, z) lost its plane parameter'
+                            % (rule, ANCHOR))
+    world = World(repo)
+    world.bound = R = Poly.sym('R')
+    world.strict = True
+    it = Interp(world, fi)
+    st = State({fi.params[0]: Opaque('self'),
+                fi.params[1]: Num(Poly.sym('z'))})
+    for p in fi.params[2:]:
+        st.env[p] = Opaque(p)
+    outs = it.run_body(st)
+    if not it.returns and not outs:
+        raise AnalysisError('%s: %s has no path to a return' % (rule, ANCHOR))
+    if outs:
+        ctx.violation(rule, fi, fi.node, 'a path through _check_dz reaches '
+                      'the end of the function without returning a step',
+                      key='%s | falls off the end' % fi.full)
+    by_node = {}
+    for node, v, s in it.returns:
+        by_node.setdefault(id(node), (node, []))[1].append((v, s))
+    z, eps = Poly.sym('z'), Poly.sym(EPS)
+    n = 0
+    ctx.trusted.append('%s: self.axial_bnds is sorted and free of duplicates '
+                       '(np.unique, C05.R3); np.around(x, d >= %d) is the '
+                       'identity; req_dz > 0 (C05.R1)' % (rule, ROUND_DIGITS))
+    for node, paths in by_node.values():
+        text = short(node.value, 90) if node.value is not None else 'None'
+        bad = {'landing': [], 'crossing': [], 'ahead': [], 'first': []}
+        for v, s in paths:
+            p = it.num(v)
+            if p is None or isinstance(v, (Vec, Mask)):
+                for k in bad:
+                    bad[k].append('`%s` is not a number the analysis can '
+                                  'follow' % text)
+                continue
+            ok, why = prove_le(world, p, R, s.facts)
+            if not ok:
+                bad['crossing'].append(why)
+            for polys in _cases(world, [p] + list(s.facts)):
+                leaf, fs = polys[0], list(polys[1:])
+                if not _landing(world, leaf):
+                    bad['landing'].append(_fmt(leaf))
+                    continue
+                if _infeasible(fs):
+                    continue        # this case of the split cannot occur
+                if not _infeasible(fs + [leaf]):
+                    bad['ahead'].append(_fmt(leaf))
+                x = world.new_elem(BNDS)
+                xs = Poly.sym(x)
+                inside = [z - xs + eps, xs - z - leaf + eps]
+                syms = set(leaf.symbols())
+                for f in fs:
+                    syms |= f.symbols()
+                # (what is known in the case of a split travels with it)
+                case = State(nonek=list(s.nonek) + [
+                    k for f in fs if isinstance(f, Known) for k in f.none])
+                if not _refuted(fs + inside,
+                                _knowledge_at(world, case, syms, x), [400]):
+                    bad['first'].append(_fmt(leaf))
+        what = {
+            'landing': (
+                'returned step is req_dz or bound - z',
+                '_check_dz may only return req_dz or the (rounded) distance '
+                'from the plane z to an element of %s; `return %s` can be %%s'
+                % (BNDS, text)),
+            'crossing': (
+                'returned step within req_dz',
+                'a boundary is crossed only when z + req_dz passes it: the '
+                'step to it must not exceed req_dz; `return %s`: %%s' % text),
+            'ahead': (
+                'strictly ahead',
+                'a boundary counts as crossed only if it is strictly ahead '
+                '(z < b): with z <= b the returned step is 0 at every '
+                'boundary plane and the mesh loop never advances; `return '
+                '%s` is not shown to be positive (step %%s; z = plane, elem '
+                '= the selected element of %s)' % (text, BNDS)),
+            'first': (
+                'first crossed boundary',
+                'the step must end at the *first* boundary strictly inside '
+                '(z, z + req_dz), and be req_dz only when there is none; on '
+                'a path to `return %s` nothing rules out another element of '
+                '%s strictly between z and z + step (step %%s): a boundary '
+                'plane is stepped over' % (text, BNDS)),
+        }
+        for k in ('landing', 'crossing', 'ahead', 'first'):
+            tag, msg = what[k]
+            n += 1
+            ctx.require(not bad[k], rule, fi, node,
+                        msg % '; '.join(sorted(set(bad[k]))[:3]),
+                        note='%s, %d path(s)' % (tag, len(paths)),
+                        key='%s | %s | %s' % (fi.full, tag, text))
+    return n
